@@ -32,7 +32,7 @@ def monitor_pair(chk, case, e1, r1, e2, r2):
 def run(tier, seed):
     chk = core.Check("C07", "exploration", tier, seed)
     rng = chk.rng("gen")
-    n_gram = {"quick": 40, "thorough": 220}[tier]
+    n_gram = {"quick": 56, "thorough": 220}[tier]
     gk = dict(fallible=0.25, sugar=0.15)
     from .. import gen3
 
